@@ -2126,13 +2126,22 @@ def disk_io_counters(perdisk=False, nowrap=True):
     """
     kwargs = dict(perdisk=perdisk) if LINUX else {}
     rawdict = _psplatform.disk_io_counters(**kwargs)
+    # On Linux the system-wide form is computed from whole disks only
+    # (partitions are skipped), so the two forms see different sets of
+    # devices: keep their nowrap histories apart, else a system-wide
+    # call makes every partition look like it disappeared.
+    name = (
+        'psutil.disk_io_counters.perdisk'
+        if perdisk
+        else 'psutil.disk_io_counters'
+    )
     if not rawdict:
         if nowrap:
             # let the nowrap cache know that all disks went away
-            _wrap_numbers(rawdict, 'psutil.disk_io_counters')
+            _wrap_numbers(rawdict, name)
         return {} if perdisk else None
     if nowrap:
-        rawdict = _wrap_numbers(rawdict, 'psutil.disk_io_counters')
+        rawdict = _wrap_numbers(rawdict, name)
     nt = getattr(_psplatform, "sdiskio", _common.sdiskio)
     if perdisk:
         for disk, fields in rawdict.items():
@@ -2142,10 +2151,13 @@ def disk_io_counters(perdisk=False, nowrap=True):
         return nt(*(sum(x) for x in zip(*rawdict.values())))
 
 
-disk_io_counters.cache_clear = functools.partial(
-    _wrap_numbers.cache_clear, 'psutil.disk_io_counters'
-)
-disk_io_counters.cache_clear.__doc__ = "Clears nowrap argument cache"
+def _disk_io_counters_cache_clear():
+    """Clears nowrap argument cache."""
+    _wrap_numbers.cache_clear('psutil.disk_io_counters')
+    _wrap_numbers.cache_clear('psutil.disk_io_counters.perdisk')
+
+
+disk_io_counters.cache_clear = _disk_io_counters_cache_clear
 
 
 # =====================================================================
